@@ -133,7 +133,8 @@ func onResourceRuleUpdate(res string, rawResRules []*Rule) (err error) {
 		ruleMap[res] = validResRules
 	}
 	rwMux.Unlock()
-	currentRules[res] = rawResRules
+	// keep a private copy: the caller may reuse its slice for the next load, which is compared against this one
+	currentRules[res] = append(make([]*Rule, 0, len(rawResRules)), rawResRules...)
 	logging.Debug("[Isolation onResourceRuleUpdate] Time statistic(ns) for updating isolation rule", "timeCost", util.CurrentTimeNano()-start)
 	logging.Info("[Isolation] load resource level rules", "resource", res, "validResRules", validResRules)
 	return nil
